@@ -396,7 +396,27 @@ func (e *env) exec(c *jcase) (fail string) {
 
 // ---- Gallina rendering ----
 
+// frequent strings are defined once in the shard header (a constant reference elaborates far
+// faster than a string literal, which matters for the large group reads)
+var internNames = map[string]string{}
+var internHeader string
+
+func init() {
+	strs := []string{"_field", "_measurement", "m0", "m1", "m2", "f0", "f1", "f2", "t0", "t1", "t2", "t3", "t4", "tx",
+		"a", "b", "c", "d", "e", "f", "g", "x", "cpu"}
+	var b strings.Builder
+	for i, s := range strs {
+		name := fmt.Sprintf("Q%d", i)
+		internNames[s] = name
+		fmt.Fprintf(&b, "Definition %s : string := \"%s\".\n", name, s)
+	}
+	internHeader = b.String()
+}
+
 func cstr(s string) string {
+	if n, ok := internNames[s]; ok {
+		return n
+	}
 	plain := true
 	for i := 0; i < len(s); i++ {
 		if s[i] < 0x20 || s[i] > 0x7e || s[i] == '"' {
@@ -624,6 +644,79 @@ func genDataset(w *vh.W) []jshard {
 		shards[i] = sh
 	}
 	return shards
+}
+
+// genLarge: a data set with enough series that a GroupBy read copies more than 4096 tag entries
+// (len(SeriesTags)+len(Tags) per row, Tags = SeriesTags + _measurement + _field):
+// kind 0: 1030-1100 series with one tag (unique value), grouped by that tag or by _field;
+// kind 1: 700-780 series with two tags (t0 from a small set, t1 unique), grouped by t0;
+// kind 2: 350-400 series with five tags (t4 unique), grouped by two of the small ones.
+// One point per series per shard; 1 shard, sometimes 2.
+func genLarge(w *vh.W, kind int) ([]jshard, *jcase) {
+	r := w.Rng
+	// the smallest sizes that cross the 4096-entry slab (4, 6, 12 entries per row): the Coq judge
+	// is quadratic in the number of rows (1380 rows: ~80 s; 750 rows: ~20 s; 380 rows: ~8 s)
+	n := 1030 + r.IntN(71)
+	switch kind {
+	case 1:
+		n = 700 + r.IntN(81)
+	case 2:
+		n = 350 + r.IntN(51)
+	}
+	nsh := 1
+	if r.IntN(3) == 0 {
+		nsh = 2
+	}
+	small := func(i, m int) string { return string(rune('a' + (i*7+i/m)%m)) }
+	shards := make([]jshard, nsh)
+	val := int64(0)
+	for si := range shards {
+		st := int64(si) * groupDur
+		sh := jshard{Start: st, End: st + groupDur, Data: make([]jsd, 0, n)}
+		for i := 0; i < n; i++ {
+			if nsh == 2 && r.IntN(4) == 0 {
+				continue // series absent from this shard
+			}
+			id := fmt.Sprintf("s%04d", i)
+			var tags [][2]string
+			switch kind {
+			case 0:
+				tags = [][2]string{{"t0", id}}
+			case 1:
+				tags = [][2]string{{"t0", small(i, 7)}, {"t1", id}}
+			default:
+				tags = [][2]string{{"t0", small(i, 5)}, {"t1", small(i/5, 3)}, {"t2", small(i, 2)}, {"t3", "x"}, {"t4", id}}
+			}
+			f := "f0"
+			if kind == 0 && i%2 == 1 {
+				f = "f2"
+			}
+			val++
+			sh.Data = append(sh.Data, jsd{M: "m0", Tags: tags, Fields: []jfield{{Name: f, Pts: [][2]int64{{st + int64(i%groupDur), val}}}}})
+		}
+		// listed (and written) in series-key order: the model's sorted-set insertions are then linear
+		sort.SliceStable(sh.Data, func(a, b int) bool {
+			ta, tb := sh.Data[a].Tags, sh.Data[b].Tags
+			for k := range ta {
+				if ta[k][1] != tb[k][1] {
+					return ta[k][1] < tb[k][1]
+				}
+			}
+			return false
+		})
+		shards[si] = sh
+	}
+	c := &jcase{Shards: shards, Start: 0, End: 30, Req: "groupby"}
+	switch kind {
+	case 0:
+		c.Keys = [][]string{{"t0"}, {"_field"}, {"_field", "t0"}}[r.IntN(3)]
+	case 1:
+		c.Keys = [][]string{{"t0"}, {"t0", "_field"}}[r.IntN(2)]
+	default:
+		c.Keys = [][]string{{"t0", "t1"}, {"t1", "t2"}, {"t2", "t0", "tx"}}[r.IntN(3)]
+	}
+	w.Count("large_group_read", fmt.Sprintf("kind%d", kind))
+	return shards, c
 }
 
 func genCmp(w *vh.W) *jpred {
@@ -964,8 +1057,8 @@ func runCase(w *vh.W, e *env, c *jcase) {
 }
 
 func main() {
-	w := vh.New("C21", "From Coq Require Import String Ascii.\nFrom Verif Require Import Base.Prelude Model.C21.\nOpen Scope string_scope.", "case", "check")
-	w.Rule = "dataset: 1-3 shard groups of 10ns (at 0,10,20; random creation order; a third flushed to TSM half-way), 1-7 (sometimes 10-18) series out of 2 measurements x {t0,t1} x {absent,a,b}, fields f0(int)/f1(float)/f2(int), 1-6 points per series-field-shard biased to the first/last instant of the shard, all values distinct; 6 (12 when n >= 2000) requests per dataset: ReadFilter / ReadGroup(GroupBy|GroupNone, 0-3 keys of t0,t1,_measurement,_field,tx, HintSchemaAllTime 1/5) with range ends from {MinInt64, MinNanoTime, shard boundaries +-1, random in [-2,33), MaxNanoTime, MaxInt64} and a predicate (3/4) of depth <= 2 over = / != on _measurement,_field,t0,t1,tx with AND/OR/parentheses; in a third of the requests leaves are also field-value comparisons ($ = != < <= > >= integer literal within the data set's value range). Non-trivial: >= 2 returned rows have points and (when there are >= 2 shards) some row has points of more than one shard. Distinct: distinct Gallina terms."
+	w := vh.New("C21", "From Coq Require Import String Ascii.\nFrom Verif Require Import Base.Prelude Model.C21.\nOpen Scope string_scope.\n"+internHeader, "case", "check")
+	w.Rule = "dataset: 1-3 shard groups of 10ns (at 0,10,20; random creation order; a third flushed to TSM half-way), 1-7 (sometimes 10-18) series out of 2 measurements x {t0,t1} x {absent,a,b}, fields f0(int)/f1(float)/f2(int), 1-6 points per series-field-shard biased to the first/last instant of the shard, all values distinct; 6 (12 when n >= 2000) requests per dataset: ReadFilter / ReadGroup(GroupBy|GroupNone, 0-3 keys of t0,t1,_measurement,_field,tx, HintSchemaAllTime 1/5) with range ends from {MinInt64, MinNanoTime, shard boundaries +-1, random in [-2,33), MaxNanoTime, MaxInt64} and a predicate (3/4) of depth <= 2 over = / != on _measurement,_field,t0,t1,tx with AND/OR/parentheses; in a third of the requests leaves are also field-value comparisons ($ = != < <= > >= integer literal within the data set's value range). Additionally 2 hand-picked and about 1 in 200 (1 in 400 when n >= 2000) LARGE GroupBy reads: 700-780 series with two tags or 350-400 series with five tags (n >= 2000: also 1030-1100 series with one tag), one point per series and shard, 1-2 shards, several groups (more than 4096 copied tag entries, i.e. beyond one tagsBuffer slab). Non-trivial: >= 2 returned rows have points and (when there are >= 2 shards) some row has points of more than one shard. Distinct: distinct Gallina terms."
 	var rc jcase
 	if w.ReplayCase(&rc) {
 		e := newEnv(rc.Shards)
@@ -1071,11 +1164,34 @@ func main() {
 		}
 		e.close()
 	}
+	// LARGE group reads: groupBySort copies every row's SeriesTags and Tags into 4096-entry slabs
+	// (tagsBuffer); only a request over more than 4096 tag entries crosses a slab boundary.
+	for kind := 0; kind < 2; kind++ {
+		shards, c := genLarge(w, []int{1, 2}[kind])
+		e := newEnv(shards)
+		runCase(w, e, c)
+		e.close()
+	}
+	largeEvery := 200
+	if w.N >= 2000 {
+		largeEvery = 400
+	}
 	perDataset := 6
 	if w.N >= 2000 {
 		perDataset = 12 // thorough tier: amortise the cost of building a store
 	}
 	for w.Len() < w.N {
+		if w.Rng.IntN(largeEvery) == 0 {
+			kind := 1 + w.Rng.IntN(2)
+			if w.N >= 2000 && w.Rng.IntN(3) == 0 {
+				kind = 0 // 1030-1100 series with a single tag: thorough tier only (judge ~45 s)
+			}
+			shards, c := genLarge(w, kind)
+			e := newEnv(shards)
+			runCase(w, e, c)
+			e.close()
+			continue
+		}
 		shards := genDataset(w)
 		e := newEnv(shards)
 		for q := 0; q < perDataset && w.Len() < w.N; q++ {
